@@ -20,8 +20,22 @@ func main() {
 	verif := flag.String("verif", "/verif", "verification directory (evidence, known findings)")
 	tier := flag.String("tier", "quick", "quick|thorough")
 	only := flag.String("only", "", "replay: re-evaluate and print only the obligation with this key (no evidence written)")
+	mkAnchors := flag.Bool("mkanchors", false, "record the functions of the current tree in tables/anchors.json and exit")
 	keysOnly := flag.Bool("keys", false, "print the keys of violated/undecided obligations as JSON and exit (no evidence written)")
 	flag.Parse()
+	if *mkAnchors {
+		p, err := core.Load(*repo, "")
+		if err != nil {
+			fmt.Println(err)
+			os.Exit(2)
+		}
+		if err := core.WriteAnchors(p, *verif+"/tables/anchors.json"); err != nil {
+			fmt.Println(err)
+			os.Exit(2)
+		}
+		fmt.Println("anchors recorded:", len(p.Funcs), "functions")
+		return
+	}
 	if flag.NArg() < 1 {
 		fmt.Println("usage: vchk [flags] <property-id>")
 		os.Exit(2)
@@ -59,6 +73,9 @@ func main() {
 			if err != nil {
 				rep.Unk("LOAD", "load:"+tags, "-", "cannot load/type-check the subject: "+err.Error())
 				continue
+			}
+			for _, n := range p.ApplyAnchors(*verif + "/tables/anchors.json") {
+				rep.Note("anchor: %s", n)
 			}
 			rep.SetConfig(tags)
 			rep.Note("config tags=%q: %d packages, %d functions with bodies", tags, len(p.Pkgs), len(p.Funcs))
